@@ -650,3 +650,31 @@ def show_raw(o):
         except BaseException as e:
             return ["rt", "<unrenderable " + type(e).__name__ + ">"]
     return list(o)
+
+
+def is_cyclic(v, _path=None):
+    """identity-based detection of a container that (transitively) contains
+    itself; such values are infinitely deep and outside the rendering claims"""
+    V = ckl.values
+    if _path is None:
+        _path = set()
+    if isinstance(v, V.ValueList):
+        kids = v.value
+    elif isinstance(v, V.ValueSet):
+        kids = list(v.value)
+    elif isinstance(v, V.ValueMap):
+        kids = list(v.value.keys()) + list(v.value.values())
+    elif isinstance(v, V.ValueObject):
+        kids = list(v.value.values())
+    else:
+        return False
+    if id(v) in _path:
+        return True
+    _path.add(id(v))
+    try:
+        for k in kids:
+            if isinstance(k, V.Value) and is_cyclic(k, _path):
+                return True
+    finally:
+        _path.discard(id(v))
+    return False
